@@ -49,6 +49,9 @@ func resumeCase(ctx context.Context, rep *mon.Reporter, rng *mon.Rand, spec *gsp
 				if call > 0 {
 					when = "resumed-call"
 				}
+				if mc := mixedClass(os, want, got); mc != "" {
+					when = mc + "/" + when
+				}
 				rep.Violation(ID+"/wrong-options/"+when, fmt.Sprintf("call %d of an interrupted history (plan %s): node %s received %v, the reference router delivers %v\noptions: %+v", call, plan, e.Path, got, want, os), wit)
 				return
 			}
